@@ -16,9 +16,15 @@ Fixpoint bt_print (t : bt) : string :=
   end.
 Fixpoint bts_print (l : list bt) : string := match l with [] => "" | x :: r => bt_print x ++ bts_print r end.
 
-(* the characters of a text pushed onto the (reversed) outside of a frame *)
+(* the characters of a text pushed onto the (reversed) outside of a frame, the string state following them *)
 Fixpoint feed (s : string) (f : frame) : frame :=
-  match s with EmptyString => f | String c r => feed r {| f_out := String c (f_out f); f_children := f_children f |} end.
+  match s with
+  | EmptyString => f
+  | String c r => feed r {| f_out := String c (f_out f); f_children := f_children f; f_st := qstep (f_st f) c |}
+  end.
+
+(* after a child has been read the scanner is outside a quoted text and the previous character was its opening brace *)
+Definition resume (f : frame) : frame := {| f_out := f_out f; f_children := f_children f; f_st := qst0 |}.
 
 (* structural reading: texts go to the outside, a block is read on its own and becomes the next child *)
 Fixpoint bt_frame (t : bt) (f : option frame) : option frame :=
@@ -31,7 +37,7 @@ Fixpoint bt_frame (t : bt) (f : option frame) : option frame :=
           match (fix go (l : list bt) (acc : option frame) : option frame :=
                    match l with [] => acc | x :: r => go r (bt_frame x acc) end) l (Some frame0) with
           | None => None
-          | Some fr => match finalize fr with Some v => Some (add_child f0 v) | None => None end
+          | Some fr => match finalize fr with Some v => Some (add_child (resume f0) v) | None => None end
           end
       end
   end.
@@ -41,12 +47,36 @@ Definition sem (l : list bt) : option pv := match bts_frame l (Some frame0) with
 
 Fixpoint nobrace (s : string) : bool :=
   match s with EmptyString => true | String c r => negb (Ascii.eqb c "{") && negb (Ascii.eqb c "}") && nobrace r end.
-Fixpoint bt_ok (t : bt) : bool :=
-  match t with
-  | BText s => nobrace s
-  | BBlock l => (fix go (l : list bt) : bool := match l with [] => true | x :: r => bt_ok x && go r end) l
+
+(* the string state after a text *)
+Fixpoint scan (st : qst) (s : string) : qst := match s with EmptyString => st | String c r => scan (qstep st c) r end.
+(* none of the characters [bad] occurs outside a quoted text *)
+Fixpoint free_of (bad : list ascii) (st : qst) (s : string) : bool :=
+  match s with
+  | EmptyString => true
+  | String c r => let st' := qstep st c in (q_in st' || negb (existsb (Ascii.eqb c) bad)) && free_of bad st' r
   end.
-Fixpoint bts_ok (l : list bt) : bool := match l with [] => true | x :: r => bt_ok x && bts_ok r end.
+
+(* a forest is well formed from a string state: texts hold no brace outside quoted text; a block starts and ends outside
+   quoted text; returns the state after it *)
+Fixpoint bt_scan (t : bt) (st : option qst) : option qst :=
+  match t with
+  | BText s => match st with Some q => if free_of ["{"; "}"]%char q s then Some (scan q s) else None | None => None end
+  | BBlock l =>
+      match st with
+      | None => None
+      | Some q =>
+          if q_in q then None
+          else match (fix go (l : list bt) (acc : option qst) : option qst :=
+                        match l with [] => acc | x :: r => go r (bt_scan x acc) end) l (Some qst0) with
+               | Some q' => if q_in q' then None else Some qst0
+               | None => None
+               end
+      end
+  end.
+Fixpoint bts_scan (l : list bt) (st : option qst) : option qst :=
+  match l with [] => st | x :: r => bts_scan r (bt_scan x st) end.
+Definition bts_ok (l : list bt) : bool := match bts_scan l (Some qst0) with Some _ => true | None => false end.
 
 (* ---------------------------------------------------------------- field segments *)
 
@@ -72,7 +102,8 @@ Definition unq (v : string) : string :=
 Inductive seg :=
 | SField (ws k v : string)
 | SRefs (ws k o sep c : string) (ids : list string)
-| SChildren (ws k o sep c : string) (n : nat).
+| SChildren (ws k o sep c : string) (n : nat)
+| SRaw (body : string).
 
 Fixpoint rep (s : string) (n : nat) : string := match n with O => "" | S m => s ++ rep s m end.
 
@@ -81,28 +112,39 @@ Definition seg_text (s : seg) : string :=
   | SField ws k v => ws ++ k ++ "=" ++ v ++ ";"
   | SRefs ws k o sep c ids => ws ++ k ++ "=" ++ o ++ refs_text sep ids ++ c ++ ";"
   | SChildren ws k o sep c n => ws ++ k ++ "=" ++ o ++ rep sep (n - 1) ++ c ++ ";"
+  | SRaw body => body ++ ";"
   end.
 
 Definition seg_fields (s : seg) (acc : list (string * pv)) : list (string * pv) :=
   match s with
-  | SField _ k v => if String.eqb (unq v) "" then acc else upsert String.eqb k (PStr (unq v)) acc
+  (* a value is dropped when nothing but commas and blanks is left of it; otherwise it is kept WITH its commas *)
+  | SField _ k v => if String.eqb (py_strip (remove_char "," (unq v))) "" then acc else upsert String.eqb k (PStr (unq v)) acc
   | SRefs _ k _ _ _ ids =>
       fst (fold_left (fun (st : list (string * pv) * nat) i => (upsert String.eqb (k ++ "_" ++ dec (snd st)) (PStr i) (fst st), S (snd st))) ids (acc, 0))
   | SChildren _ _ _ _ _ _ => acc
+  | SRaw body => vstep acc (repr_body SQ body)          (* free text: whatever the reader makes of that piece *)
   end.
 
 Definition keyok (k : string) : bool := plain k && no_char SP k && no_char "," k && negb (String.eqb k "").
 (* a plain text without leading / trailing blank and without ',' *)
 Definition textok (x : string) : bool := plain x && no_char "," x && String.eqb (py_strip x) x.
+(* a value: a plain text without leading / trailing blank; it may hold ',' (defaults such as  nullptr, nullptr ) *)
+Definition vtextok (x : string) : bool := plain x && String.eqb (py_strip x) x.
 Definition valok (v : string) : bool :=
-  (textok v && negb (prefixb dq v)) || (prefixb dq v && String.eqb v (dq ++ unq v ++ dq) && textok (unq v)).
+  (vtextok v && negb (prefixb dq v)) || (prefixb dq v && String.eqb v (dq ++ unq v ++ dq) && vtextok (unq v)).
 Definition idok (i : string) : bool := textok i && negb (String.eqb i "").
+
+(* a free-text piece (e.g. documentation="<html ...>"): as str(bytes) shows it, no ';' and no brace outside quoted text, and
+   the quoted texts are closed *)
+Definition raw_ok (body : string) : bool :=
+  free_of [";"; "{"; "}"]%char qst0 (repr_body SQ body) && negb (q_in (scan qst0 (repr_body SQ body))).
 
 Definition seg_ok (s : seg) : bool :=
   match s with
   | SField ws k v => wsok ws && keyok k && valok v
   | SRefs ws k o sep c ids => wsok ws && keyok k && layok o && layok sep && layok c && forallb idok ids
   | SChildren ws k o sep c _ => wsok ws && keyok k && layok o && layok sep && layok c
+  | SRaw body => raw_ok body
   end.
 
 Definition segs_text (l : list seg) : string := String.concat "" (map seg_text l).
